@@ -1444,7 +1444,17 @@ def _site_eci(jd):
 
 
 def replay_iod_gate(d):
-    """Noise-free radar observations of a circular orbit, dt = frac * period apart; real solver, real database."""
+    """Noise-free radar observations of a circular orbit, dt = frac * period apart; real solver, real database.  Both orbit classes of the plane
+    are tried (prograde and retrograde motion): the claim is about every near-circular orbit."""
+    out, bad = {}, False
+    for sense, name in ((1, "prograde"), (-1, "retrograde")):
+        b, o = _replay_iod_gate_one(d, sense)
+        out[name] = o
+        bad = bad or b
+    return bad, out
+
+
+def _replay_iod_gate_one(d, sense):
     from resonaate.physics.bodies import Earth
     from resonaate.physics.orbit_determination import lambert as L
 
@@ -1456,7 +1466,7 @@ def replay_iod_gate(d):
     dt = frac * period
     t_now = t_prev + dt
     Q = _generic_rotation()
-    w = math.sqrt(mu / n ** 3)
+    w = sense * math.sqrt(mu / n ** 3)
 
     def state(t):
         th = w * t
